@@ -367,7 +367,7 @@ fn main() {
     main_for(|tier| {
         let thorough = tier == "thorough";
         let s = C11 { thorough, chains: if thorough { vec!["stellar", "stellar-testnet"] } else { vec!["stellar"] } };
-        let mut o = Opts::new(tier, if thorough { 4 } else { 3 });
+        let mut o = Opts::new(tier, if thorough { 5 } else { 3 });
         o.min_depth = 2;
         o.rule = "histories over deploy_interchain_token (deployer U0/U1, 2 salts, supply 5/0/-1, minter none / third party / the deployer / the service itself, 5 metadata shapes incl. decimals 255, 256, empty name, empty symbol, multi-byte; authorised by the deployer or by someone else), register_canonical_token (2 assets, repeated), remote deploy messages (fresh id, id of a local token, id of a canonical registration; minter none / valid / undecodable); native seats behind all 7 ids. After every new state: token_address / token_manager_type of all 7 ids vs the write-once model; for every service-deployed token token_id, name, symbol, decimals, owner, deployer balance, is_minter for 5 universe addresses, and an approved inbound transfer executed on a snapshot; ids and addresses from independent keccak/XDR/sha256 derivations".into();
         (s, o)
